@@ -281,3 +281,28 @@ Definition sig_obs_check (o : sig_obs) : bool :=
     | _ => negb created
     end
   end.
+
+(* ---------- which connections count as the local socket ----------
+   controlsvc.go ControlFunc: connIsUnix := cfo.RemoteAddr().Network() == "unix".  The network
+   name of a mesh stream is the node's network name, makeNetworkName: "netceptor-" ++ node ID
+   (++ "-n" when taken) — it CONTAINS the node ID, which an operator chooses freely.  [net_of]
+   gives the name per kind of connection; [conn_is_unix] is the test of the code,
+   [conn_contains_unix] the sloppier one (the text "unix" anywhere in the name), kept to be refuted. *)
+Definition s_unix : bytes := [117; 110; 105; 120].
+Definition s_tcp : bytes := [116; 99; 112].
+Definition s_netceptor_ : bytes := [110; 101; 116; 99; 101; 112; 116; 111; 114; 45].
+
+Definition net_of (c : conn) (node suffix : bytes) : bytes :=
+  match c with Unix => s_unix | Tcp => s_tcp | Mesh => s_netceptor_ ++ node ++ suffix end.
+
+Definition conn_is_unix (net : bytes) : bool := beq_bytes net s_unix.
+
+Fixpoint starts_with (p l : bytes) : bool :=
+  match p, l with
+  | [], _ => true
+  | x :: p', y :: l' => (x =? y) && starts_with p' l'
+  | _, [] => false
+  end.
+Fixpoint contains (p l : bytes) : bool :=
+  starts_with p l || match l with [] => false | _ :: l' => contains p l' end.
+Definition conn_contains_unix (net : bytes) : bool := contains s_unix net.
